@@ -431,6 +431,16 @@ class VF:
                 continue
             pl = a[1]
             r = self.ref_root(pl[0], 0)
+            if r is None:
+                # a closure that captured something by &mut: the call may mutate it
+                sd = self.body.single_def(pl[0])
+                if sd and sd[2] == "assign" and sd[4][0] == "agg" and sd[4][1].get("k") in ("closure", "coroutine"):
+                    for cap in sd[4][2]:
+                        if cap[0] != "k":
+                            rr = self.ref_root(cap[1][0], 0)
+                            if rr is not None:
+                                roots[rr[0]] = ()
+                continue
             if r is not None:
                 l, path = r
                 if l in roots:
